@@ -294,4 +294,6 @@ def r6(ctx):
     c05.r7(ctx, RULE="C07.R6")
 
 
+EXPLANATION = EXPLANATION + ' (R5) repository idioms; (R6) = C05.R7: success may be reported for a fragmented message only if the receiver cannot have discarded fragments it acknowledged (known finding on the pinned tree, DESIGN 8.4).'
+
 RULES = [("C07.R1", r1), ("C07.R2", r2), ("C07.R3", r3), ("C07.R4", r4), ("C07.R5", r_enum), ("C07.R6", r6)]
